@@ -15,6 +15,7 @@ Nothing is evaluated; an operand whose origin cannot be named makes the rule Und
 from __future__ import annotations
 
 import ast
+import copy
 import typing as T
 
 from ..core import Module, Undecided, attr_chain, norm, short, walk_no_nested
@@ -22,6 +23,7 @@ from ..cfg import CFG
 from ..report import RuleCtx
 
 IBASE = 'mesonbuild/interpreterbase/interpreterbase.py'
+UNIVERSAL = 'mesonbuild/utils/universal.py'
 TABLE = 'project_meson_versions'
 COND = 'tmp_meson_version'
 FuncNode = T.Union[ast.FunctionDef, ast.AsyncFunctionDef]
@@ -45,6 +47,9 @@ class Roles:
         self.mod = mod
         self.funcs: T.Dict[str, FuncNode] = dict(mod.funcs())
         self._defs: T.Dict[int, T.Dict[str, T.List[T.Optional[ast.AST]]]] = {}
+        # method name of Range -> (parameter, [element expression over self/parameter | None]) for methods that return a tuple display
+        # on every path (see pair_summaries); filled by r5
+        self.pairs: T.Dict[str, T.Tuple[str, T.List[T.Optional[ast.AST]]]] = {}
 
     def defs(self, fn: FuncNode) -> T.Dict[str, T.List[T.Optional[ast.AST]]]:
         """local name -> the expressions bound to it anywhere in fn (None: bound in a way the rule does not read)."""
@@ -60,6 +65,12 @@ class Roles:
                 simple.add(id(n.target))
                 if n.value is not None:
                     out.setdefault(n.target.id, []).append(n.value)
+            elif isinstance(n, ast.Assign) and len(n.targets) == 1 and isinstance(n.targets[0], ast.Tuple) and isinstance(n.value, ast.Call) \
+                    and all(isinstance(t, ast.Name) for t in n.targets[0].elts):
+                # `a, b = recv.m(x)`: a is `recv.m(x)[0]`, b is `recv.m(x)[1]` (read through the pair summary of m, round 13)
+                for i, t in enumerate(n.targets[0].elts):
+                    out.setdefault(t.id, []).append(ast.Subscript(value=n.value, slice=ast.Constant(value=i), ctx=ast.Load()))     # type: ignore[attr-defined]
+                    simple.add(id(t))
         for n in walk_no_nested(fn, include_root=False):
             if isinstance(n, ast.Name) and isinstance(n.ctx, (ast.Store, ast.Del)) and id(n) not in simple:
                 out.setdefault(n.id, []).append(None)
@@ -93,6 +104,19 @@ class Roles:
             if any(x.startswith('?') for x in a | b):
                 return {f'?{short(e, 60)}'}
             return {f'intersect({"|".join(sorted(a))}, {"|".join(sorted(b))})'}
+        if isinstance(e, ast.Subscript) and isinstance(e.slice, ast.Constant) and type(e.slice.value) is int and isinstance(e.value, ast.Call) \
+                and isinstance(e.value.func, ast.Attribute) and e.value.func.attr in self.pairs:
+            # element of the pair returned by a Range method: the element expression with self/parameter replaced by receiver/argument
+            param, elts = self.pairs[e.value.func.attr]
+            operand = _one_arg(e.value, param)
+            if operand is not None and 0 <= e.slice.value < len(elts) and elts[e.slice.value] is not None:
+                recv = e.value.func.value
+
+                class Bind(ast.NodeTransformer):
+                    def visit_Name(self, n: ast.Name) -> ast.AST:
+                        return copy.deepcopy(recv) if n.id == 'self' else copy.deepcopy(operand) if n.id == param else n
+                return self.role(fn, Bind().visit(copy.deepcopy(elts[e.slice.value])), depth + 1, busy)
+            return {f'?{short(e, 60)}'}
         if isinstance(e, ast.Name):
             key = (id(fn), e.id)
             if key in busy:
@@ -123,6 +147,60 @@ class Roles:
                 return {f'?{e.id}'}
             return out
         return {f'?{short(e, 60)}'}
+
+
+def pair_summaries(umod: Module) -> T.Tuple[T.Dict[str, T.Tuple[str, T.List[T.Optional[ast.AST]]]], T.Dict[str, int]]:
+    """Closed-world reading of the Range class for call sites in other modules (round 13: a query merged with its sibling into one
+    method that returns both answers).  Returns
+      pairs  : public one-parameter method m of Range -> (parameter, elements), when every return of m (normal form, intersect kept
+               as a pure call) is a tuple display of one length; an element is its expression when that is the same on every return
+               and mentions only self and the parameter, else None (not a fixed expression: e.g. the verdict);
+      verdict: m -> k when Range.always itself is defined as the projection `return self.m(inner)[k]`: then `r.m(x)` asks always().
+    Nothing here is evaluated: expressions are compared as normalised text."""
+    from .c19_norm import normal_form
+    pairs: T.Dict[str, T.Tuple[str, T.List[T.Optional[ast.AST]]]] = {}
+    verdict: T.Dict[str, int] = {}
+    try:
+        rng = umod.cls('Range')
+    except Exception:       # noqa: BLE001  (anchors of the class are R4's business)
+        return pairs, verdict
+    if any(isinstance(c, ast.ClassDef) and any('Range' in {n.id for n in ast.walk(b) if isinstance(n, ast.Name)} for b in c.bases) for c in ast.walk(umod.tree)):
+        return pairs, verdict
+    for m in rng.body:
+        if not isinstance(m, ast.FunctionDef) or m.name.startswith('_') or m.decorator_list:
+            continue
+        a = m.args
+        params = [p.arg for p in a.posonlyargs + a.args]
+        if len(params) != 2 or params[0] != 'self' or a.vararg or a.kwarg or a.kwonlyargs:
+            continue
+        if m.name == 'always':
+            body = [st for st in m.body if not (isinstance(st, ast.Expr) and isinstance(st.value, ast.Constant))]
+            if len(body) == 1 and isinstance(body[0], ast.Return) and isinstance(body[0].value, ast.Subscript):
+                sub = body[0].value
+                c = sub.value
+                if isinstance(sub.slice, ast.Constant) and type(sub.slice.value) is int and isinstance(c, ast.Call) and isinstance(c.func, ast.Attribute) \
+                        and norm(c.func.value) == 'self' and (op := _one_arg(c, '')) is not None and norm(op) == params[1]:
+                    verdict[c.func.attr] = sub.slice.value
+            continue
+        if m.name == 'intersect':
+            continue
+        try:
+            nf = normal_form(m, umod.tree, cls='Range', calls={'intersect'})
+        except Undecided:
+            continue
+        rets = [n for n in walk_no_nested(nf, include_root=False) if isinstance(n, ast.Return)]
+        if not rets or not all(isinstance(r.value, ast.Tuple) and len(r.value.elts) == len(rets[0].value.elts)     # type: ignore[union-attr]
+                               and not any(isinstance(x, ast.Starred) for x in r.value.elts) for r in rets):
+            continue
+        elts: T.List[T.Optional[ast.AST]] = []
+        for i in range(len(rets[0].value.elts)):           # type: ignore[union-attr]
+            texts = {norm(r.value.elts[i]) for r in rets}  # type: ignore[union-attr]
+            e0 = rets[0].value.elts[i]                     # type: ignore[union-attr]
+            names = {n.id for n in ast.walk(e0) if isinstance(n, ast.Name)}
+            elts.append(e0 if len(texts) == 1 and names <= {'self', params[1]} else None)
+        pairs[m.name] = (params[1], elts)
+    verdict = {m: k for m, k in verdict.items() if m in pairs and 0 <= k < len(pairs[m][1])}
+    return pairs, verdict
 
 
 def _fmt(r: T.Set[str]) -> str:
@@ -175,14 +253,16 @@ def r5(ctx: RuleCtx) -> None:
     # built-in positive example of the role reader (must match on every run)
     probe = ast.parse('def f(self):\n    p = m.project_meson_versions[self.subproject]\n    c = self.tmp_meson_version\n    return p.intersect(c)\n').body[0]
     assert roles.role(probe, probe.body[-1].value) == {'N'}, 'role reader self-test'     # type: ignore[attr-defined]
+    roles.pairs, verdict = pair_summaries(ctx.repo.module(UNIVERSAL))
 
     # (a) Range.always is asymmetric: receiver = what the project allows, argument = the condition
     n_always = 0
     for q, fn in roles.funcs.items():
         for c in walk_no_nested(fn, include_root=False):
-            if not (isinstance(c, ast.Call) and isinstance(c.func, ast.Attribute) and c.func.attr == 'always'):
+            if not (isinstance(c, ast.Call) and isinstance(c.func, ast.Attribute) and (c.func.attr == 'always' or c.func.attr in verdict)):
                 continue
-            operand = _one_arg(c, 'inner')
+            # `r.m(x)` where Range.always is by definition `self.m(inner)[k]` asks the same asymmetric question (round 13)
+            operand = _one_arg(c, 'inner' if c.func.attr == 'always' else roles.pairs[c.func.attr][0])
             if operand is None:
                 raise Undecided(f'{q}: cannot bind the argument of {short(c)}')
             recv, arg = roles.role(fn, c.func.value), roles.role(fn, operand)
